@@ -16,6 +16,8 @@ pub enum Corr {
     LastCoeff(usize),
     LastShort,
     LastLong(bool),
+    /// last layer zero-padded (same polynomial) or cut to this many coefficients
+    LastLen(usize),
     DeleteLeaf(usize, usize),
     DeleteAuth(usize, usize),
     DropLayerWitness,
@@ -31,6 +33,7 @@ impl Corr {
             Corr::LastCoeff(_) => "last-coefficient",
             Corr::LastShort => "last-layer-short",
             Corr::LastLong(_) => "last-layer-long",
+            Corr::LastLen(_) => "last-layer-length",
             Corr::DeleteLeaf(..) => "delete-leaf",
             Corr::DeleteAuth(..) => "delete-auth",
             Corr::DropLayerWitness => "drop-layer-witness",
@@ -46,6 +49,7 @@ impl Corr {
             Corr::LastCoeff(i) => json!({"c": "lastcoeff", "i": i}),
             Corr::LastShort => json!({"c": "lastshort"}),
             Corr::LastLong(z) => json!({"c": "lastlong", "zero": z}),
+            Corr::LastLen(n) => json!({"c": "lastlen", "n": n}),
             Corr::DeleteLeaf(t, i) => json!({"c": "delleaf", "t": t, "i": i}),
             Corr::DeleteAuth(t, i) => json!({"c": "delauth", "t": t, "i": i}),
             Corr::DropLayerWitness => json!({"c": "droplayer"}),
@@ -62,6 +66,7 @@ impl Corr {
             "lastcoeff" => Corr::LastCoeff(g("i")?),
             "lastshort" => Corr::LastShort,
             "lastlong" => Corr::LastLong(v.get("zero")?.as_bool()?),
+            "lastlen" => Corr::LastLen(g("n")?),
             "delleaf" => Corr::DeleteLeaf(g("t")?, g("i")?),
             "delauth" => Corr::DeleteAuth(g("t")?, g("i")?),
             "droplayer" => Corr::DropLayerWitness,
@@ -80,6 +85,7 @@ impl Corr {
                 inst.last.pop();
             }
             Corr::LastLong(zero) => inst.last.push(if *zero { Felt::ZERO } else { Felt::ONE }),
+            Corr::LastLen(n) => inst.last.resize(*n, Felt::ZERO),
             Corr::DeleteLeaf(t, i) => {
                 inst.leaves[*t].remove(*i);
             }
@@ -121,6 +127,14 @@ pub fn corruptions(inst: &Instance, dense: bool) -> Vec<Corr> {
     out.push(Corr::LastShort);
     out.push(Corr::LastLong(true));
     out.push(Corr::LastLong(false));
+    // every length near and at multiples of the right one: only the length check can reject a
+    // zero-padded last layer (the polynomial is unchanged)
+    let l = inst.last.len();
+    for n in [0, l / 2, l + 2, 2 * l, 3 * l, 4 * l, 5 * l, 6 * l, 3 * l / 2] {
+        if n != l {
+            out.push(Corr::LastLen(n));
+        }
+    }
     out.push(Corr::DropLayerWitness);
     out
 }
